@@ -13,7 +13,7 @@ from vf.zoo import unit, vec
 
 ID = "C12"
 LEVEL = "fault_enumeration"
-BUDGET = {"quick": 1600, "thorough": 32000}
+BUDGET = {"quick": 3200, "thorough": 48000}
 MIN_NONTRIVIAL = {"quick": 200, "thorough": 2000}
 EXHAUSTIVE = True
 RULE = (
